@@ -372,9 +372,15 @@ def job_api(cfg):
         r2.call(r2.inv.read_runtime_data)
     vio = {}
     n = 0
+    r.call(inv.read_runtime_data)       # (a model whose inverter refuses blocks settles on its fallbacks here)
+    toggle = [0]
 
     def poll(assign):
         nonlocal n
+        if fam == 'ET':
+            # the battery comes and goes from poll to poll (capability flags must not lag behind the values they explain)
+            toggle[0] += 1
+            r.dev.rf.set(35184, (2, 2, 0, 0, 2, 0)[toggle[0] % 6])
         st = r.call(inv.read_runtime_data)
         n += 1
         if st[0] != 'ok':
@@ -427,13 +433,17 @@ def api_configs(tier, seed):
     out = []
     # every serial-number tag the library knows (a model-specific quirk may hang on any of them), two power classes
     every_tag = [dict(family='ET', tag=t, power=p, refused=(), battery_mode=2) for t in ET_TAGS for p in (3000, 50000)]
+    # ... and inverters that refuse optional blocks (the fallback paths of the poll are taken from the second poll on)
+    refusing = [dict(family='ET', tag=t, power=p, refused=rf, battery_mode=2, with_refusals=True)
+                for t, p in (('ETU', 15000), ('ETT', 10000), ('25KET', 25000))
+                for rf in (('meter_ext2',), ('meter_ext', 'meter_ext2'), ('mppt',), ('battery2',), ('battery',))]
     for c in list(et_configs(tier, seed)) + every_tag + list(dt_configs(tier, seed)) + list(es_configs(tier, seed)):
         k = (c['family'], c['tag'], c['power'], c.get('firmware'))
         if c['refused'] or c['battery_mode'] != (2 if c['family'] == 'ET' else 0) or k in seen:
             continue
         seen.add(k)
         out.append(dict(c, seed=seed))
-    return out
+    return out + [dict(c, seed=seed) for c in refusing]
 
 
 def api_configs_with_neighbours(tier, seed):
